@@ -59,6 +59,19 @@ CLAIMED = {
                 "flipping twice restores the rows.",
         "design": "4/C08",
     },
+    "C09": {
+        "rules": "R-SEQ, R-LAYOUT, R-NOPAD, R-MUSTCALL, R-ORDER, R-SIB, R-WHOCALLS, R-ATOMIC(inverse form), R-INIT, R-WRITESET",
+        "text": "Static analysis of the tileset loader/saver: writer, reader and the frozen custom-format description agree on "
+                "sections, order, widths and on which constant or expression feeds each header; tileset headers, tags and every "
+                "header constant the reader does not validate have the documented values; the red/blue exchange is an in-place "
+                "std::swap applied exactly once per side and on the saver's own copy; ValidateTileset (with exactly depth 8, "
+                "width 32, height multiple of 32) dominates the first write and every return of both load branches; files are "
+                "written and returned top-down; section headers are validated before allocation; the detectors touch the stream "
+                "only through Peek, which is read-then-inverse-seek; header aggregates name every field.",
+        "note": "Declined: that the loaded picture equals the saved one (values); internals of the standard-bitmap branch beyond "
+                "'indexed reader then tileset validation'.",
+        "design": "4/C09",
+    },
     "C10": {
         "rules": "R-SEQ, R-LAYOUT, R-NOPAD, R-MUSTCALL, R-INDEX(strength), R-NARROW, R-INIT, R-ORDER, R-CONST",
         "text": "Static analysis of the PRT serialiser pair: ArtFile::Write, ArtFile::Read and spec/prt.seq.json agree token "
@@ -72,6 +85,18 @@ CLAIMED = {
         "note": "Declined: equality of the re-read structure and byte stability (values); the arithmetic inside "
                 "VerifyCountsMatchHeader / CountFrames.",
         "design": "4/C10",
+    },
+    "C11": {
+        "rules": "R-INDEX, R-GUARD, R-WHOCALLS, R-NOWRAP, R-ORDER, R-TAINT(signed sinks, raw extents), R-MUSTCALL",
+        "text": "Static analysis of the picture loaders and the operations applied to what they return: the image-index "
+                "verifier refuses exactly index >= count and dominates the subscript; palette indices are strictly bounded at "
+                "load time; the sprite palette copy is bounded by its destination; the pixel window is only ever a "
+                "bounds-checked slice, computed in 64 bits and created before the allocation of that size; validated and "
+                "factory-made headers have width >= 0 and height != INT32_MIN; header validation dominates every "
+                "header-sized allocation; every loader read is the throwing kind; raw reads fit their buffers; the scan-line "
+                "flip has no unguarded unsigned subtraction. Whole-program memory safety is not claimed.",
+        "note": "Declined: all other memory-safety and termination aspects; operations on hand-edited objects; resource exhaustion.",
+        "design": "4/C11",
     },
     "C12": {
         "rules": "R-ATOMIC, R-NOWRAP, R-CURSOR, R-COUNT, R-MUSTCALL, R-SEQ(helper lengths)",
